@@ -83,29 +83,27 @@ Print Assumptions C20_tagged_fields_all_present.
 (* Copy, New and MarshalResource of an instance of an accepted struct
    succeed, whatever values its fields hold ([slot_typed]: a Go struct's
    tagged fields hold values of their declared types) and whatever other
-   fields the struct has.  PARTIAL: for struct types whose own name is not a
-   resource tag (the ID field's api tag is not attr / rel / rel,...: such a
-   type would list its ID among its attributes or relationships); those are
-   covered by the correspondence cases and the oracle only. *)
-Theorem C20_copy_new_safe_partial : forall d vals w,
+   fields the struct has -- struct types whose own name is a resource tag
+   (attr, rel,...; they list their ID among their fields) included.  The field
+   called ID is exported, as Go's naming rule guarantees. *)
+Theorem C20_copy_new_safe : forall d vals w,
   check_struct d = true -> NoDup (map sf_name d) ->
-  (forall f, In f d -> is_id_field f = true -> is_res_tag (sf_api f) = false) ->
+  (forall f, In f d -> is_id_field f = true -> sf_exported f = true) ->
   length vals = length d -> Forall2 slot_typed d vals ->
   wrap d vals = Ok w ->
   (exists w', wrapper_copy w = Ok w' /\ w_desc w' = d /\ w_typ w' = w_typ w /\
               w_attrs w' = w_attrs w /\ w_rels w' = w_rels w) /\
   (exists w0, wrapper_new w = Ok w0).
 Proof. exact copy_checked_ok. Qed.
-Print Assumptions C20_copy_new_safe_partial.
+Print Assumptions C20_copy_new_safe.
 
-Theorem C20_marshal_safe_partial : forall e d vals w prepath fields reldata,
+Theorem C20_marshal_safe : forall e d vals w prepath fields reldata,
   check_struct d = true -> NoDup (map sf_name d) ->
-  (forall f, In f d -> is_id_field f = true -> is_res_tag (sf_api f) = false) ->
   length vals = length d -> Forall2 slot_typed d vals ->
   wrap d vals = Ok w ->
   exists j, marshal_resource e (RWrap w) prepath fields reldata = Ok j.
 Proof. exact marshal_checked_ok. Qed.
-Print Assumptions C20_marshal_safe_partial.
+Print Assumptions C20_marshal_safe.
 
 Example c20_copy_example :
   let d := [mkSField "ID" (GTAttr 1 false) "id" "things" true;
@@ -115,7 +113,7 @@ Example c20_copy_example :
             mkSField "O" (GTAttr 1 false) "o" "rel,other" true] in
   let vals := [VStr "id1"; VPtr 3 (Some (VInt 3 (-5))); VNil; VStrs false ["b"; "a"]; VStr "o1"] in
   check_struct d = true /\ NoDup (map sf_name d) /\
-  (forall f, In f d -> is_id_field f = true -> is_res_tag (sf_api f) = false) /\
+  (forall f, In f d -> is_id_field f = true -> sf_exported f = true) /\
   Forall2 slot_typed d vals /\
   is_ok (bind (wrap d vals) wrapper_copy) = true.
 Proof.
@@ -134,3 +132,12 @@ Example c20_examples :
   check_struct [id; mkSField "A" (GTAttr 1 false) "a" "attr" true; mkSField "B" (GTAttr 2 false) "a" "" true] = false /\
   check_struct [id; mkSField "A" (GTAttr 1 false) "" "attr" true] = false.
 Proof. vm_compute. repeat split. Qed.
+
+(* a struct type that is itself called "attr" lists its ID among its attributes *)
+Example c20_copy_named_attr_example :
+  let d := [mkSField "ID" (GTAttr 1 false) "id" "attr" true; mkSField "A" (GTAttr 2 false) "a" "attr" true] in
+  let vals := [VStr "id1"; VInt 2 7] in
+  check_struct d = true /\ map fst (build_attrs d) = ["id"; "a"] /\
+  is_ok (bind (wrap d vals) wrapper_copy) = true /\
+  (forall e, is_ok (bind (wrap d vals) (fun w => marshal_resource e (RWrap w) "/" ["id"; "a"] [])) = true).
+Proof. cbn zeta. split; [reflexivity|]. split; [reflexivity|]. split; [reflexivity|]. intros e. reflexivity. Qed.
